@@ -453,8 +453,8 @@ def bounded(b):
                     unit = (tp.unit or "q").strip()
                     qpm = Fraction(tp.bpm) * S.note_value(unit.rstrip(".")) * S.dot_multiplier(unit.count("."))
                     want_mpq = Fraction(60 * 10**6) / qpm
-                    if not any(m.type == "set_tempo" and tk == t and abs(m.tempo - want_mpq) <= 1 for (tr, tk, m) in metas):
-                        okm, whatm = False, "tempo %r %r at tick %s written as %r microseconds per quarter, the mark means %s" % (
+                    if not any(m.type == "set_tempo" and tk == t and abs(m.tempo - want_mpq) <= Fraction(1, 2) + Fraction(1, 10**6) for (tr, tk, m) in metas):
+                        okm, whatm = False, "tempo %r %r at tick %s written as %r microseconds per quarter, the mark means %s (to the nearest whole microsecond)" % (
                             tp.bpm, tp.unit, t, [m.tempo for (tr, tk, m) in metas if m.type == "set_tempo" and tk == t], float(want_mpq))
             b.case("export/signatures_and_tempo_at_their_positions", okm, case, whatm)
             # re-import
